@@ -47,8 +47,9 @@ def execute(vh, wd, scenarios, seed, name):
                 raise vf.Infra(f"vh c20 keeps dying (rc={p.returncode}): {p.stderr[:500]}")
             last = json.loads(lines[-1])
             reason = p.stderr.strip().split("\n")[0][:200]
-            out.write(json.dumps({"t": last["t"], "i": last["i"] + 1, "ev": "Fatal", "msg": reason, "rc": p.returncode},
-                                 separators=(",", ":")) + "\n")
+            if p.returncode != 3:   # rc 3: the harness reported a hang itself (Ret with hang=1) and left
+                out.write(json.dumps({"t": last["t"], "i": last["i"] + 1, "ev": "Fatal", "msg": reason, "rc": p.returncode},
+                                     separators=(",", ":")) + "\n")
             sc = None
             for ln in reversed(lines):
                 e = json.loads(ln)
